@@ -125,6 +125,48 @@ Proof.
 Qed.
 End P2S.
 
+(* ---- round 5: the normalisation inside the PARAFAC2 loop (cp_normalize of (weights, [A, B, C])) seen on the quantities the error is
+   computed from - A already multiplied by the weights: the columns of B and C are rescaled and A * weights absorbs the scales.  Any such
+   rescaling keeps every slice of the reconstruction, hence the residual from scratch and (by the identity) the slice-wise expansion. *)
+Section P2Rescale.
+Context {F : Type} (Op : fops F).
+Hypothesis Rth : ring_theory (f0 Op) (f1 Op) (fadd Op) (fmul Op) (fsub Op) (fopp Op) (@eq F).
+Add Ring Fr6 : Rth.
+Local Notation "a *f b" := (fmul Op a b) (at level 40, left associativity).
+Variables (I K Rk : nat) (J : nat -> nat) (X P : nat -> nat -> nat -> F) (A A' Bm Bm' C C' : nat -> nat -> F) (db dc : nat -> F).
+Hypothesis HB : forall q r, Bm q r = db r *f Bm' q r.
+Hypothesis HC : forall k r, C k r = dc r *f C' k r.
+Hypothesis HA : forall i r, A' i r = A i r *f (db r *f dc r).
+Lemma p2_slice_rescale i j k : p2_slice Op Rk P A' Bm' C' i j k = p2_slice Op Rk P A Bm C i j k.
+Proof.
+  unfold p2_slice, p2_Bi. apply S_ext; intros r _. rewrite HA, HC.
+  rewrite (S_ext Op Rk (fun q => P i j q *f Bm q r) (fun q => db r *f (P i j q *f Bm' q r))) by (intros; rewrite HB; ring).
+  rewrite (S_scale_l Op Rth). ring.
+Qed.
+Theorem p2_rescale_true : p2_err2_true Op I K Rk J X P A' Bm' C' = p2_err2_true Op I K Rk J X P A Bm C.
+Proof.
+  unfold p2_err2_true. apply S_ext; intros i _. apply S_ext; intros j _. apply S_ext; intros k _. now rewrite p2_slice_rescale.
+Qed.
+Theorem p2_rescale_fast :
+  p2_err2_fast Op I K Rk J X P A' Bm' C' (p2_tmp_proj Op Rk J X P A' Bm') = p2_err2_fast Op I K Rk J X P A Bm C (p2_tmp_proj Op Rk J X P A Bm).
+Proof. rewrite !(p2_err2_fast_proj_correct Op Rth). apply p2_rescale_true. Qed.
+End P2Rescale.
+Theorem p2_rescale_both {F} (Op : fops F) (Rth : ring_theory (f0 Op) (f1 Op) (fadd Op) (fmul Op) (fsub Op) (fopp Op) (@eq F))
+  (I K Rk : nat) (J : nat -> nat) (X P : nat -> nat -> nat -> F) (A A' Bm Bm' C C' : nat -> nat -> F) (db dc : nat -> F) :
+  (forall q r, Bm q r = fmul Op (db r) (Bm' q r)) -> (forall k r, C k r = fmul Op (dc r) (C' k r)) ->
+  (forall i r, A' i r = fmul Op (A i r) (fmul Op (db r) (dc r))) ->
+  p2_err2_true Op I K Rk J X P A' Bm' C' = p2_err2_true Op I K Rk J X P A Bm C /\
+  p2_err2_fast Op I K Rk J X P A' Bm' C' (p2_tmp_proj Op Rk J X P A' Bm') = p2_err2_fast Op I K Rk J X P A Bm C (p2_tmp_proj Op Rk J X P A Bm).
+Proof. intros HB HC HA. split; [eapply p2_rescale_true | eapply p2_rescale_fast]; eauto. Qed.
+
+(* ---- round 5: the instrumented loop is the loop: erasing the events of p2_loop_tr gives p2_loop (same iterate, same list) *)
+Lemma p2_loop_tr_erase {St E} (err : St -> E) (Or : p2oracle St) (ls normalize : bool) : forall n it cur errs tr,
+  fst (p2_loop_tr err Or ls normalize n it cur errs tr) = p2_loop err Or ls normalize false n it cur errs.
+Proof.
+  induction n as [|n IH]; intros it cur errs tr; [reflexivity|]. cbn [p2_loop_tr p2_loop].
+  destruct (p2_stop Or it); [reflexivity|]. apply IH.
+Qed.
+
 (* ---- round 5: EVERY entry of the returned list.  Entry j of the list returned by a PARAFAC2 run of n iterations is the error of
    the iterate RETURNED by the run cut after j+1 iterations (same oracle, same start) - line-search iterations (accepted or rejected
    jump) and ordinary ones alike; a convergence stop only shortens the list. *)
